@@ -8,6 +8,6 @@ PATCH=$1; shift
 if ! git -C $WT apply "$PATCH"; then echo "PATCH-DOES-NOT-APPLY $PATCH"; exit 3; fi
 rc=0
 for c in "$@"; do
-  MAMBA_REPO=$WT /verif/check $c --tier quick 2>&1 | grep -v "^  rule" | sed "s/^/[$c] /" | cut -c1-400
+  MAMBA_REPO=$WT VERIF_EVIDENCE_DIR=/tmp/mut_evidence /verif/check $c --tier quick 2>&1 | grep -v "^  rule" | sed "s/^/[$c] /" | cut -c1-400
 done
 git -C $WT checkout -q -- . && git -C $WT clean -fdq
